@@ -106,4 +106,21 @@ PROPS = {
                        'step equality on recorded schedules; monitors inflight_le_alpha, asked_once, never_ask_self, drained_at_return, terminates, '
                        'result_sorted_distinct_le16, result_only_seen on the real run',
     },
+    'C11': {
+        'lean_targets': ['Shisui.Props.C11'],
+        'min_obligations': 5,
+        'runs': [{'name': 'findnodes', 'harness': ['findnodes'], 'driver': ['C11']},
+                 {'name': 'nodesresp', 'harness': ['nodesresp'], 'driver': ['C11']}],
+        'rule': 'responder: real handleFindNodes on a started node whose table holds 60..260 crafted signed records (all bucket distances '
+                '240..256 by chance of the keys, 1 in 4 unverified, address classes public/LAN/loopback/special-purpose, record sizes up to the '
+                '300-byte limit), askers on LAN/loopback/public addresses, distance lists: empty, all 257 values shuffled, 1..6 values from '
+                '{0,100,239..257,300,65535} with repeats; the decoded reply must satisfy the Allowed relation (segments per requested distance, '
+                'liveness, relay-safety by class, size budget, maximality); asker: real processNodes on NODES replies with valid, unsigned, undecodable, '
+                'duplicate, own-record, low-port (0,1,80,1023,1024,1025), unrelayable records and distance filters; non-trivial = non-empty reply / '
+                '>=2 records; distinct = distinct lines',
+        'trusted': ['enode.New (signature check), enode.LogDist, netutil.CheckRelayIP (rendered by address class and compared with the real function on every record), rlp, v5wire packet framing (size model Pk)'],
+        'assumptions': ['request ids are at most 8 bytes (discv5)', 'NetRestrict is nil in the harness (the model keeps the clause)'],
+        'explanation': 'theorems: nodes_rule, nodes_fits (datagram <= 1280 from the RLP size arithmetic), accept_only_if; the responder is checked as a '
+                       'decidable relation because buckets are shuffled, the asker by step equality',
+    },
 }
